@@ -672,8 +672,10 @@ func (vc *FnVC) doReturn(r *ssa.Return) {
 	for n, v := range vc.paramVals {
 		env.vars[n] = v
 	}
+	vc.retTerms = nil
 	for i, res := range r.Results {
 		v := vc.val(res)
+		vc.retTerms = append(vc.retTerms, v.S)
 		env.vars[fmt.Sprintf("r%d", i)] = v
 		if i < len(vc.resultNames) {
 			env.vars[vc.resultNames[i]] = v
